@@ -18,7 +18,7 @@ import (
 
 func TestMain(m *testing.M) { kit.Main(m) }
 
-const rule = "node-family scenarios whose wrapped components are consumed through interfaces only, with a wrap plan per component (early reference: no/wrap; before initialization: no/wrap; after initialization: no / new wrapper / the early wrapper again); random rich graphs plus every digraph on 2 pure nodes and selected 3-node shapes x all creation orders x all 12^n plans; oracle: success => one version per component across all holders and the lookup; non-trivial = a wrapped component lies on a cycle (so an early reference can be handed out) ; distinct by scenario shape + plan"
+const rule = "node-family scenarios whose wrapped components are consumed through interfaces only, with a wrap plan per component (early reference: no/wrap; before initialization: no/wrap; after initialization: no / new wrapper / the early wrapper again); random rich graphs plus every digraph on 2 pure nodes and selected 3-node shapes x all creation orders x all 12^n plans; oracle: success => one version per component across all holders and the lookup; non-trivial = a wrapped component lies on a cycle (so an early reference can be handed out) ; distinct by scenario shape + plan; since rounds 7/8 also an observer that looks a neighbour up from its after-instantiation callback (scenarios with a tolerated failed lookup are excluded and counted), an ordered substituting processor, a same-type copy on a cycle, and substitution during the preparation phase"
 
 type fataler interface{ Fatalf(string, ...any) }
 
